@@ -246,12 +246,22 @@ def mp_predicate(ns, nch, peaks, se, out):
             cdt = gcd(cdt, p[2])
         len0 = (last_end - t) // cdt
         f = -(-len0 // ns)
-        aligned = all((p[0] - t) % cdt == 0 for p in old)
-        if aligned and (f <= 1 or len0 % f == 0):
+        # C19_merge_waveform_conserves_integral / C19_merge_waveform_samples (disjoint peaks, aligned or not)
+        if f <= 1 or len0 % f == 0:
             tot = sum(Fraction(x) for p in old for x in p[6][:p[1]])
             if sum(data) != tot:
                 return "waveform integral %s != sum of the merged waveforms %s although nothing is truncated" % (
                     sum(data), tot)
+        buf = [Fraction(0)] * len0
+        for p in old:
+            up, i0 = p[2] // cdt, (p[0] - t) // cdt
+            for k in range(p[1]):
+                for rr in range(up):
+                    buf[i0 + k * up + rr] = Fraction(p[6][k], up)
+        stored = [sum(buf[k * f:(k + 1) * f]) for k in range(len0 // f)] if f > 1 else buf
+        if list(data) != stored:
+            return "merged waveform %s, by definition (up-sampled constituents, chunk sums of %d) %s" % (
+                [float(x) for x in data], max(f, 1), [float(x) for x in stored])
     return None
 
 
